@@ -1023,6 +1023,11 @@ class Parser:
         if stash:
             yield stash
 
+    def fstring_word(self, start: TokenInfo, end: TokenInfo) -> TokenInfo:
+        """An f-string inside a subprocess word (cut -f"1", echo f"{x}") is passed verbatim like any other quoted string."""
+        text = self._tokenizer._source_text(start.start, end.end)
+        return TokenInfo(Token.STRING, start.string + end.string if text is None else text, start.start, end.end, start.line)
+
     def proc_args(self, args: list[TokenInfo | ast.expr]) -> list[ast.AST]:
         return list(self._proc_args(args))
 
